@@ -342,6 +342,13 @@ class Assignment(Atom):
         if self.value is None:
             raise exceptions.ResolveExpressionError(name=self.name)
         expr = self.value.resolve(symbols)
+        if isinstance(expr, (sp.core.relational.Relational, sp.logic.boolalg.BooleanFunction)):
+            # A right hand side that is a relation stands for the number 1 or 0, as a relation
+            # inside an expression does. Everything that computes with the expression
+            # (derivatives for the Rush-Larsen schemes, the Jacobian) needs the number
+            expr = sp.Piecewise((1, expr), (0, True))
+        elif isinstance(expr, sp.logic.boolalg.BooleanAtom):
+            expr = sp.Integer(1) if expr else sp.Integer(0)
         return type(self)(
             name=self.name,
             value=self.value,
